@@ -8,7 +8,7 @@ def run(res, tier):
         "profile alphabet of 3 per bunch (impulse, dense, sawtooth+spike); one fixed complex impedance",
         "FFTW wisdom for every transform length is created in a sequential warm-up pass first, so that history and fresh objects use the same plans",
         "outputs are compared when they are requested; a later CSR request legitimately overwrites the shared spectrum buffer"]
-    c = _api.run(res, tier, ["C18_history"], warm=True)
+    c = _api.run(res, tier, ["C18_history"], warm=True, blocks=(1,))
     res.states = int(res.coverage.get("states", 0))
     res.transitions = int(res.coverage.get("transitions", 0))
     res.traces = res.transitions     # every edge of the search is executed on the real object (histories are replayed on the implementation)
